@@ -70,16 +70,20 @@ class Corpus:
                          "fields": fields, "variants": [], "max_items": max_items, "max_attrs": max_attrs, "alpha": []})
 
     def enum(self, variants, rename_all="none", from_word=False, from_none=False, allow_unknown=False):
+        # `allow_unknown_fields` exists on the enum only; its struct variants inherit it
+        for v in variants:
+            if v["sid"]:
+                self.decls[v["sid"] - 1]["allow_unknown"] = allow_unknown
         return self.add({"kind": "enum", "root": False, "trait": "FromMeta", "rename_all": rename_all, "cdefault": "none",
                          "ctransform": "none", "allow_unknown": allow_unknown, "from_word": from_word,
                          "from_none": from_none, "attr_names": [], "forward": "none", "forward_names": [],
                          "attrs_field": "none", "magic_ident": False, "fields": [], "variants": variants,
                          "max_items": 0, "max_attrs": 0, "alpha": []})
 
-    def variant(self, rust, style="unit", rename="", skip=False, word=False, t=None, fields=None, allow_unknown=False, wordf=False):
+    def variant(self, rust, style="unit", rename="", skip=False, word=False, t=None, fields=None, wordf=False):
         sid = 0
         if style == "struct":
-            sid = self.struct(fields, trait="variant", allow_unknown=allow_unknown)
+            sid = self.struct(fields, trait="variant")
         return {"rust": rust, "rename": rename, "skip": skip, "word": word, "wordf": wordf, "style": style,
                 "ty": t or ty("val"), "sid": sid}
 
@@ -138,7 +142,7 @@ def value_items(c, name, f, depth, rng):
             out.append(meta(name, "list", items=[meta(vn, "word")]))
             if v["style"] == "struct":
                 sub = c.decls[v["sid"] - 1]
-                for s in nested_inputs(c, sub, rule, depth - 1, rng)[:4]:
+                for s in nested_inputs(c, sub, rule, depth - 1, rng):        # incl. an unknown name, a bad value, a literal item
                     out.append(meta(name, "list", items=[meta(vn, "list", items=s)]))
                 out.append(meta(name, "list", items=[meta(vn, "junk")]))
             elif v["style"] == "newtype":
@@ -261,15 +265,21 @@ def build(seed, tier, focus='all'):
         c.variant("HiddenData", style="newtype", t=V, skip=True),
     ], rename_all="snake_case")
     e_word = c.enum([c.variant("Auto", word=True), c.variant("Manual"),
-                     c.variant("Tuned", style="struct", fields=[field("hz", U), field("note", V)], allow_unknown=True)],
-                    rename_all="SCREAMING_SNAKE_CASE")
+                     c.variant("Tuned", style="struct", fields=[field("hz", U), field("note", V)])],
+                    rename_all="SCREAMING_SNAKE_CASE", allow_unknown=True)
     e_fn = c.enum([c.variant("First"), c.variant("SecondOne"), c.variant("Boxed", style="newtype", t=ty("recv", leaf_req2))],
                   rename_all="camelCase", from_word=True, from_none=True)
     e_pascal = c.enum([c.variant("AlphaBeta"), c.variant("Gamma", style="struct", fields=[field("inner_val", V)])],
                       rename_all="PascalCase")
-    enums = [e_plain, e_mixed, e_word, e_fn, e_pascal]
     flat_inner = c.struct([field("width", U), field("label", O), field("extra", V, default="trait")])
     flat_mid = c.struct([field("depth", U, default="trait"), field("rest", ty("recv", flat_inner), flatten=True)])
+    # `allow_unknown_fields = false` written out on the enum (the same as not writing it), a struct variant under it
+    e_strict = c.enum([c.variant("Plain"), c.variant("Hello", style="struct", rename="hi", fields=[field("user", V), field("silent", B, default="trait")])])
+    c.decls[e_strict - 1]["allow_unknown_false"] = True
+    # a struct variant is parsed as a struct receiver: its own flatten member receives what it does not know
+    e_flat = c.enum([c.variant("Off"), c.variant("Tuned", style="struct", fields=[field("level", U), field("extra", ty("recv", flat_inner), flatten=True)])],
+                    rename_all="snake_case")
+    enums = [e_plain, e_mixed, e_word, e_fn, e_pascal, e_strict, e_flat]
 
     # --- FromMeta roots: every single option on the designated field, each crossed with container options
     def root(fields, **kw):
@@ -469,7 +479,7 @@ def build(seed, tier, focus='all'):
                 cap = 3 if tier == "quick" else 4
             if any(f["ty"]["k"] == "enum" for f in d["fields"]) and not elem:
                 # every variant's forms stay in the alphabet; three items over that many letters would be 40 000 inputs per root
-                cap = max(cap, 34)
+                cap = max(cap, 40)
                 d["max_items"] = min(d["max_items"], 2)
             d["alpha"] = cap_alphabet(al, cap, rng)
     return c
@@ -584,6 +594,7 @@ def suggest_alphabet(c, d, rng):
                 if writable(vn) and writable(fname):
                     for m in misspell(vn, rng)[:2] + ([vn] if v["skip"] else []):
                         out.append(meta(fname, "list", items=[meta(m, "word")]))
+                        out.append(meta(fname, "nv", "s:" + m))          # the string form names a value, not a field: no suggestion
     seen = set()
     res = []
     for it in out:
@@ -749,6 +760,8 @@ def render_enum(c, d, out):
         co.append("from_none = fnone_%s" % name)
     if d["allow_unknown"]:
         co.append("allow_unknown_fields")
+    if d.get("allow_unknown_false"):
+        co.append("allow_unknown_fields = false")
     out.append("#[derive(Debug, Clone, darling::FromMeta)]")
     if co:
         out.append("#[darling(%s)]" % ", ".join(co))
